@@ -94,21 +94,24 @@ PROPS = {
         "explanation": "reclamation side of the same free-list contracts",
     },
     "C09": {
-        "units": ["vm"],
+        "units": ["vm", "anl"],
         "trusted_base": COMMON_TB + [
+            "units/anl/prelude.rs: reduced AST (real field names; accessors extracted verbatim from steel-parser), AnalysisPass with the real traversal fields (list checked against the real struct every run) + ghost event log, quickscope::ScopeMap / FxHashMap / SmallVec / ThinVec as exact finite models; `self.visit` is the CALLEE CONTRACT of the recursive visitor (records the state it is called in; returns with tail flag, escape flag, stack offset and context depth unchanged, defining context unchanged or cleared); visit_define_without_body abstracted",
             "units/vm/prelude.rs: VmCore/SteelThread with only the touched fields (field lists checked against the real structs every run), frame stack with a ghost count of older frames, reduced SteelVal/ByteCodeLambda, RootedInstructions as a raw slice pointer, message-less stop!",
             "real steel-gen OpCode; u24/DenseInstruction/StackFrame/STACK_LIMIT extracted verbatim",
         ],
         "assumptions": [
-            "which call sites get the tail opcodes (analysis.rs / code_gen.rs), the JIT tier's own tail-call paths and heap-side memory are NOT covered",
+            "which call sites are classified as tail calls is decided per visitor function of analysis.rs (unit anl: if / begin / let / define / set! / application) against the visitor's contract; visit_lambda_function (body analysed in tail position, depth +1) and visit_atom are ASSUMED to satisfy that contract (read off the code: every assignment to the traversal fields is paired with its restore); how code_gen.rs turns the recorded call kind into TAILCALL / TCOJMP, the JIT tier's own tail-call paths and heap-side memory are NOT covered",
             "per-call frame reuse implies a constant frame stack by induction over iterations (paper step)",
             "operand stacks of 5 values, arity <= 2 (Vec::drain under CBMC)",
         ],
         "explanation": "frame-reuse contract of the interpreter's tail-call handlers and the depth-limit check",
     },
     "C01": {
-        "units": ["vm"],
+        "units": ["vm", "anl", "cev"],
         "trusted_base": COMMON_TB + [
+            "units/cev/prelude.rs: reduced AST, ConstantEnv as a ghost (one symbolic binding, lookups/unbinds counted), FxHashSet as a 2-slot set model, `ConstantEvaluator::visit` as ghost callee returning its argument; TokenType / Paren / ParenMod / InternedNumber / OptLevel / SteelVal::is_truthy / If::new / the ConstantEvaluator struct are extracted verbatim",
+            "units/anl/prelude.rs: reduced AST (real field names; accessors extracted verbatim from steel-parser), AnalysisPass with the real traversal fields (list checked against the real struct every run) + ghost event log, quickscope::ScopeMap / FxHashMap / SmallVec / ThinVec as exact finite models; `self.visit` is the CALLEE CONTRACT of the recursive visitor (records the state it is called in; returns with tail flag, escape flag, stack offset and context depth unchanged, defining context unchanged or cleared); visit_define_without_body abstracted",
             "units/vm/prelude.rs: VmCore/SteelThread with only the touched fields (field lists checked against the real structs every run), frame stack with a ghost count of older frames, reduced SteelVal/ByteCodeLambda, RootedInstructions as a raw slice pointer, message-less stop!",
             "real steel-gen OpCode; u24/DenseInstruction/StackFrame/STACK_LIMIT extracted verbatim",
         ],
